@@ -210,7 +210,7 @@ def pred_sub_uninit(spec: dict) -> bool:
     return bool(us) and all(it["sub"] for it in us)
 
 
-REFUSE = 0  # does the tree carry the second guard (tensors stored in the destination data file are refused)?  set by main()
+REFUSE = 1  # the tree carries the second guard (56a0c3c): tensors stored in the destination data file are refused
 
 
 def pred_dest_path(spec: dict) -> bool:
@@ -296,32 +296,6 @@ def classify(spec: dict, clause: str, detail: str = "") -> str | None:
 
 
 # --------------------------------------------------------------------------- one case = one spec × all fault points
-
-
-def detect_deep() -> int:
-    """Does the real guard walk sub-graphs?  (witness of F2; decides the `deep` parameter of the model)"""
-    spec = {"name": "m.onnx", "dir": "", "style": "abs", "verbose": 0, "files": [],
-            "inits": [{"name": "u", "sub": 1, "kind": "U"}]}
-    r = L.run_real(spec, None)
-    return 1 if (r["res"] == "ValueError" and r["calls"] == 0) else 0
-
-
-def detect_refuse() -> int:
-    """Does the real function refuse a model with an initializer stored in the destination data file? (C20-D1 fix)"""
-    spec = {"name": "m.onnx", "dir": "", "style": "abs", "verbose": 0, "files": [["m.onnx.data", 9, 300]],
-            "inits": [{"name": "d", "sub": 0, "kind": "E", "file": "m.onnx.data", "off": 0, "len": 300, "valid": 1,
-                       "dtype": "UINT8", "shape": [300]}]}
-    r = L.run_real(spec, None)
-    return 1 if (r["res"] == "ValueError" and r["calls"] == 0) else 0
-
-
-def detect_keepnames() -> int:
-    """Does the real function put the tensors' names back? (C20-D4 fix)"""
-    spec = {"name": "m.onnx", "dir": "", "style": "abs", "verbose": 0, "files": [],
-            "inits": [{"name": "s", "sub": 0, "kind": "M", "seed": 4, "len": 16, "np": 1, "dtype": "UINT8", "shape": [16],
-                       "tname_differs": 1}]}
-    r = L.run_real(spec, None)
-    return 1 if (r["res"] == "ok" and r["line"].endswith("tn=tn_s")) else 0
 
 
 def check_spec(drv, spec: dict, deep, stats: Counter, ks=None):
@@ -412,13 +386,11 @@ def main(run: core.Run) -> None:
     stats: Counter = Counter()
     # the guard walks every graph (fix 1c518f5); only while C20-D2 is listed as *open* is the old scope probed
     global REFUSE
-    deep = detect_deep() if any(f["id"] == "C20-D2" for f in run.open_findings()) else 1
-    run.coverage["guard_walks_subgraphs"] = bool(deep)
-    # second guard (C20-D1 fix): probed while C20-D1 is listed open, pinned to "present" once it is listed fixed
-    REFUSE = detect_refuse() if any(f["id"] == "C20-D1" for f in run.open_findings()) else 1
-    run.coverage["guard_refuses_tensors_in_destination"] = bool(REFUSE)
-    keep = detect_keepnames() if any(f["id"] == "C20-D4" for f in run.open_findings()) else 1
-    run.coverage["restores_tensor_names"] = bool(keep)
+    # The model is pinned to the code as it is (no adaptive probing): the guard walks every graph (1c518f5), tensors
+    # stored in the destination data file are refused (56a0c3c), tensor names are restored (657db39).  A tree that
+    # behaves otherwise breaks the tie / the oracle and is reported.
+    deep, REFUSE, keep = 1, 1, 1
+    run.coverage["model_cfg_pinned"] = {"deep": True, "refuse": True, "keepNames": True}
     deep = f"{deep}{REFUSE}{keep}"  # the model's Cfg as the driver reads it
 
     if run.replay_path:
